@@ -1,0 +1,107 @@
+//go:build verif
+
+// Contracts for the deductive verification machinery under /verif (see /verif/DESIGN.md).
+// This file is compiled only with the build tag "verif". It contains no executable
+// code that the normal build can see; the //@ lines are read by /verif/engine.
+package ergo
+
+//@ spec validState(s string) bool =
+//@     s=="todo" || s=="doing" || s=="done" || s=="blocked" || s=="canceled" || s=="error"
+//@ spec allowed(f string, t string) bool =
+//@     (f=="todo"     && (t=="doing"||t=="done"||t=="blocked"||t=="canceled")) ||
+//@     (f=="doing"    && (t=="todo"||t=="done"||t=="blocked"||t=="canceled"||t=="error")) ||
+//@     (f=="blocked"  && (t=="todo"||t=="doing"||t=="done"||t=="canceled")) ||
+//@     (f=="done"     &&  t=="todo") || (f=="canceled" && t=="todo") ||
+//@     (f=="error"    && (t=="todo"||t=="doing"||t=="canceled"))
+//@ spec clears(s string) bool = s=="todo" || s=="done" || s=="canceled"
+//@ spec claimInv(s string, c string) bool =
+//@     ((s=="doing"||s=="error") ==> c!="") && (clears(s) ==> c=="")
+
+//@ func validateTransition
+//@   ensures [table] (ret == nil) <==> (from == to || allowed(from, to))
+//@   modifies nothing
+//@ func validateClaimInvariant
+//@   ensures [rule]  (ret == nil) <==> claimInv(state, claimedBy)
+//@   modifies nothing
+
+//@ spec wfGraph(g *Graph) bool =
+//@     g != nil && g.Tasks != nil && g.Deps != nil && g.RDeps != nil && g.Meta != nil && g.Tombstones != nil &&
+//@     (forall k string :: has(g.Tasks,k) ==> g.Tasks[k] != nil)
+
+//@ spec done2(g *Graph, id string) bool =
+//@     !has(g.Tasks,id) || g.Tasks[id].State=="done" || g.Tasks[id].State=="canceled"
+//@ spec epicComplete(g *Graph, e string) bool =
+//@     forall c string :: has(g.Tasks,c) && g.Tasks[c].EpicID==e ==>
+//@         g.Tasks[c].State=="done" || g.Tasks[c].State=="canceled"
+//@ spec epicDepsComplete(g *Graph, e string) bool =
+//@     forall d string :: has(g.Deps,e) && has(g.Deps[e],d) && has(g.Tasks,d) && g.Tasks[d].IsEpic
+//@         ==> epicComplete(g,d)
+//@ spec specReady(t *Task, g *Graph) bool =
+//@     t.State=="todo" && t.ClaimedBy=="" &&
+//@     (forall d string :: has(g.Deps,t.ID) && has(g.Deps[t.ID],d) ==> done2(g,d)) &&
+//@     (t.EpicID!="" ==> epicDepsComplete(g,t.EpicID))
+//@ spec specBlocked(t *Task, g *Graph) bool =
+//@     t.State=="blocked" || (t.State=="todo" && t.ClaimedBy=="" && !specReady(t,g))
+
+//@ func isEpicComplete
+//@   requires [wf] wfGraph(graph)
+//@   ensures [iff-spec] ret <==> epicComplete(graph, epicID)
+//@   modifies nothing
+//@ loop 0 range graph.Tasks
+//@   invariant [so-far] forall c string :: visited(c) && has(graph.Tasks,c) && graph.Tasks[c].EpicID==epicID ==>
+//@         graph.Tasks[c].State=="done" || graph.Tasks[c].State=="canceled"
+
+//@ func areEpicDepsComplete
+//@   requires [wf] wfGraph(graph)
+//@   ensures [iff-spec] ret <==> epicDepsComplete(graph, epicID)
+//@   modifies nothing
+//@ loop 0 range graph.Deps[epicID]
+//@   invariant [so-far] forall d string :: visited(d) && has(graph.Tasks,d) && graph.Tasks[d].IsEpic ==> epicComplete(graph,d)
+
+//@ func isReady
+//@   requires [wf]  wfGraph(graph)
+//@   ensures  [iff-spec]  ret <==> (task != nil && specReady(task, graph))
+//@   modifies nothing
+//@ loop 0 range graph.Deps[task.ID]
+//@   invariant [deps-so-far] forall d string :: visited(d) ==> done2(graph, d)
+
+//@ func isBlocked
+//@   requires [wf]  wfGraph(graph)
+//@   ensures  [iff-spec]  ret <==> (task != nil && specBlocked(task, graph))
+//@   modifies nothing
+//@ loop 0 range graph.Deps[task.ID]
+//@   invariant [deps-so-far] forall d string :: visited(d) ==> done2(graph, d)
+
+//@ spec finished(s string) bool = s=="done" || s=="canceled"
+//@ spec pruneEligible(g *Graph, id string) bool =
+//@     has(g.Tasks,id) &&
+//@     ( (!g.Tasks[id].IsEpic && finished(g.Tasks[id].State))
+//@     || (g.Tasks[id].IsEpic && !(exists c string :: has(g.Tasks,c) && !g.Tasks[c].IsEpic
+//@              && g.Tasks[c].EpicID==id && id!="" && !finished(g.Tasks[c].State))) )
+//@ spec wfIDs(g *Graph) bool = forall k string :: has(g.Tasks,k) ==> g.Tasks[k].ID == k
+
+//@ func selectPruneTargets
+//@   requires [wf] graph != nil ==> wfGraph(graph) && wfIDs(graph)
+//@   ensures  [nil] graph == nil ==> len(ret) == 0
+//@   ensures  [exact-policy] graph != nil ==> (forall id string :: contains(ret, id) <==> pruneEligible(graph, id))
+//@   ensures  [sorted] forall i int, j int :: 0<=i && i<j && j<len(ret) ==> ret[i] <= ret[j]
+//@   modifies nothing
+//@ loop 0 range graph.Tasks
+//@   invariant [elig] forall k string :: has(eligibleTasks,k) <==>
+//@        (visited(k) && has(graph.Tasks,k) && !graph.Tasks[k].IsEpic && finished(graph.Tasks[k].State))
+//@ loop 1 range graph.Tasks
+//@   invariant [rem-sound] forall e string :: has(remainingChildren,e) ==>
+//@        (e != "" && exists c string :: visited(c) && has(graph.Tasks,c) && !graph.Tasks[c].IsEpic
+//@              && !finished(graph.Tasks[c].State) && graph.Tasks[c].EpicID==e)
+//@   invariant [rem-complete] forall c string :: visited(c) && has(graph.Tasks,c) && !graph.Tasks[c].IsEpic
+//@              && !finished(graph.Tasks[c].State) && graph.Tasks[c].EpicID != "" ==> has(remainingChildren, graph.Tasks[c].EpicID)
+//@   invariant [positive] forall e string :: has(remainingChildren,e) ==> remainingChildren[e] > 0
+//@ loop 2 range graph.Tasks
+//@   invariant [epics] forall k string :: has(eligibleEpics,k) <==>
+//@        (visited(k) && has(graph.Tasks,k) && graph.Tasks[k].IsEpic && !has(remainingChildren,k))
+//@ loop 3 range eligibleTasks
+//@   invariant [ids-tasks] forall x string :: contains(ids, x) <==> visited(x)
+//@   invariant [ids-fresh] fresh(ids)
+//@ loop 4 range eligibleEpics
+//@   invariant [ids-epics] forall x string :: contains(ids, x) <==> (has(eligibleTasks,x) || visited(x))
+//@   invariant [ids-fresh] fresh(ids)
